@@ -8,6 +8,7 @@ inductive Cl
   | c      -- `if (TransformationCounter > ValidInstanceNum) { TransError = TransMaxInstanceError; return; }`
   | w      -- `if (!checkCounterValidity()) return;`  (the same, but only a warning under --warn-on-counter-out-of-bounds)
   | r      -- a statement that (transitively, by name) reaches `TheRewriter` / `RewriteHelper`
+  | x      -- a `return` that sets no error and is not the query return (taken under a condition the model cannot see)
   | n      -- anything else
 deriving Repr, DecidableEq
 
@@ -23,6 +24,7 @@ structure In where
   queryOnly : Bool
   tooBig : Bool        -- counter (or to-counter) > number of instances
   warn : Bool          -- --warn-on-counter-out-of-bounds
+  silent : Bool := false   -- the condition of an `x` clause holds (e.g. the input language it special-cases)
 deriving Repr
 
 structure Out where
@@ -36,12 +38,13 @@ def run : List Cl → In → Out → Out
   | .c :: rest, i, o => if i.tooBig then { o with maxInstanceError := true } else run rest i o
   | .w :: rest, i, o => if i.tooBig && !i.warn then { o with maxInstanceError := true } else run rest i o
   | .r :: rest, i, o => run rest i { o with rewrote := true }
+  | .x :: rest, i, o => if i.silent then o else run rest i o
   | .n :: rest, i, o => run rest i o
 
-/-- no rewriting clause before the first clause satisfying `p`, and such a clause exists -/
+/-- no rewriting clause and no silent return before the first clause satisfying `p`, and such a clause exists -/
 def guardedBy (p : Cl → Bool) : List Cl → Bool
   | [] => false
-  | k :: rest => if p k then true else if k = .r then false else guardedBy p rest
+  | k :: rest => if p k then true else if k = .r || k = .x then false else guardedBy p rest
 
 def isQ : Cl → Bool | .q => true | _ => false
 def isC : Cl → Bool | .c => true | .w => true | _ => false
